@@ -227,6 +227,28 @@ class World:
         self.run(lambda: self.d.is_open(), horizon)
         return bool(self.d.is_open())
 
+    def second_generation(self, how):
+        """End the open connection (how: 'local-close' | 'peer-fin' | 'peer-fin-mid-message') and open a new one with the same node
+        object.  -> True when Open was reached again.  The scenario that follows then runs on a connection that has a history."""
+        sock = self.sock
+        if how == "local-close":
+            self.call("closer-gen1", lambda: self.d.close())
+            self.run(lambda: any(m["cmd"] == 282 and m["flags"] & 0x80 for m in self._safe_sent()), 5.0)
+            dpr = next((m for m in self._safe_sent() if m["cmd"] == 282 and m["flags"] & 0x80), None)
+            if dpr:
+                self.feed(peer_dpa(dpr["hbh"], dpr["e2e"]))
+        else:
+            if how == "peer-fin-mid-message":
+                whole = app_request(0x0DD0DD01, 0x0DD0DD02, dest_realm=LOCAL["realm"], payload=bytes(64))
+                self.feed(whole[:len(whole) // 2 + 3])
+                self.run(lambda: False, 0.2)
+            self.net.peer_fin(sock)
+        self.run(lambda: self.state() == "Closed" and not [t for t in self.sched.live_threads()
+                                                           if t.name.endswith(("_psm_thread", "transport_layer_thread", "recv_message_monitor"))], 20.0)
+        if self.state() != "Closed":
+            return False
+        return self.open_connection(name="app-start-gen2")
+
     def conn_socks_since(self, n):
         return [s for s in self.net.socks[n:] if s.kind == "stream" and s.state != "new"]
 
